@@ -384,3 +384,35 @@ Proof.
   - apply wf_storeb_sound. exact H1.
   - intros l Hl. apply snapshot_presentb_sound. rewrite forallb_forall in H2. apply H2. exact Hl.
 Qed.
+
+(* ------------------------------------------------------------------ the generic commit is not vacuous: the append of
+   Table.append_records (any of the three canonical spellings of the new file's path) with fresh names always satisfies the
+   side conditions, so it really extends the history *)
+Lemma resolve_spell : forall sp n, resolve (spell sp (data_key n)) = data_key n.
+Proof. intros sp n. destruct sp as [|[|sp]]; reflexivity. Qed.
+
+Lemma forallb_str_mem_self : forall l, forallb (fun m => str_mem m l) l = true.
+Proof. intro l. apply forallb_forall. intros m H. apply str_mem_In. exact H. Qed.
+
+Lemma append_inj_l : forall p a b : string, (p ++ a)%string = (p ++ b)%string -> a = b.
+Proof. induction p; simpl; intros a0 b H; [exact H|]. inversion H. auto. Qed.
+
+Lemma op_append_valid : forall h sid name sp mname lname mt,
+  lookup (data_key name) (h_store h) = None -> lookup (man_key mname) (h_store h) = None -> lookup (man_key lname) (h_store h) = None ->
+  mname <> lname ->
+  match op_append h sid name sp mname lname mt with
+  | HCommit _ nd nm kept ln lmt _ => valid_commit h nd nm kept ln lmt = true
+  | _ => False
+  end.
+Proof.
+  intros h sid name sp mname lname mt F1 F2 F3 NE. unfold op_append, valid_commit. cbv zeta.
+  unfold new_objects. cbn [map app fst snd].
+  rewrite !andb_true_iff. repeat split.
+  - cbn [nodupb]. rewrite !andb_true_iff. repeat split; try reflexivity.
+    apply negb_true_iff. apply str_mem_false. intros [E|[]]. apply append_inj_l in E. congruence.
+  - cbn [forallb]. rewrite (proj2 (has_key_false _ _) F1), (proj2 (has_key_false _ _) F2), (proj2 (has_key_false _ _) F3). reflexivity.
+  - cbn [forallb fst snd]. rewrite resolve_spell. rewrite !andb_true_iff. repeat split; try reflexivity.
+    + apply startswith_app.
+    + apply orb_true_iff. right. apply str_mem_In. left. reflexivity.
+  - apply forallb_str_mem_self.
+Qed.
